@@ -212,6 +212,17 @@ func c13Scenarios() map[string]c13Setup {
 		q := *p
 		return []c13Call{{"Assemble(p)", func() string { return c13Compile(p) }}, {"Assemble(copy of p)", func() string { return c13Compile(&q) }}}, []*seccomp.Policy{p, &q}
 	})
+	m["shared-slices-two-archs"] = mkScenario(func() ([]c13Call, []*seccomp.Policy) {
+		// one Syscalls slice, two policy values with different target architectures
+		p := &seccomp.Policy{DefaultAction: seccomp.ActionKillProcess, Syscalls: []seccomp.SyscallGroup{
+			{Action: seccomp.ActionAllow, Names: []string{"read", "execve"}},
+			{Action: seccomp.ActionErrno, Names: []string{"write"}, NamesWithCondtions: []seccomp.NameWithConditions{{Name: "exit", Conditions: seccomp.ArgumentConditions{{Argument: 0, Operation: seccomp.NotEqual, Value: 0}}}}},
+			{Action: seccomp.ActionTrap, Names: []string{"fork"}}}}
+		q := *p
+		seccomp.VerifSetArch(p, x.Info)
+		seccomp.VerifSetArch(&q, i386.Info)
+		return []c13Call{{"Assemble(p for x86_64)", func() string { return c13Compile(p) }}, {"Assemble(copy of p for i386)", func() string { return c13Compile(&q) }}}, []*seccomp.Policy{p, &q}
+	})
 	m["two-archs"] = mkScenario(func() ([]c13Call, []*seccomp.Policy) {
 		p, q := c13Policy(arm, 0), c13Policy(i386, 1)
 		return []c13Call{{"Assemble(arm)", func() string { return c13Compile(p) }}, {"Assemble(i386)", func() string { return c13Compile(q) }}}, []*seccomp.Policy{p, q}
